@@ -42,6 +42,8 @@ impl Prop for C10 {
             rebuild: 0,
             extra: 0,
             pressure: 3,
+            mass_delete: 0,
+            big: 0,
         };
         let cfg = EvCfg {
             kind_weights: [3, 3, 4, 0, 1],
@@ -52,6 +54,9 @@ impl Prop for C10 {
     }
     fn label_floors(&self) -> Vec<(&'static str, f64)> {
         vec![("request-names-foreign-stored", 0.3), ("foreign-after-own", 0.08)]
+    }
+    fn release_fraction(&self, tier: Tier) -> f64 {
+        tier.pick(0.3, 0.5)
     }
     fn max_shrink_iters(&self) -> u32 {
         400
